@@ -76,6 +76,10 @@ def run(prop_id, tier, seed, report):
                 rest = [p_ for p_ in plans if p_ not in keep]
                 plans = keep + rng.sample(rest, min(len(rest), max(0, 14 - len(keep))))
             for (kind, path, tgt, nth, persistent) in plans:
+                if stats.get("stuck", 0) >= 3:
+                    # calls that do not return cost the watchdog's patience each: three of them are findings
+                    # enough, the rest of the sweep would only repeat them
+                    break
                 err = ERRNOS[(stats["runs"]) % 3]
                 trio = prep(contents, cfg, sc)
                 stats["runs"] += 1
@@ -83,8 +87,10 @@ def run(prop_id, tier, seed, report):
                     trio.model.fault(kind, nth, persistent, tgt)
                     mres = trio.model.call(sc.call.wire())
                     with trace.Tracer(trio.real.root, fault=trace.FaultPlan(kind, path, nth, persistent, err)) as tr:
-                        rres = trio.real.run(sc.call)
+                        rres = trio.run_real(sc.call)      # on a watched thread: a call that blocks on itself is a result
                     fired = tr.fault.fired
+                    if rres == "err CallDidNotReturn":
+                        stats["stuck"] = stats.get("stuck", 0) + 1
                     mstate, rstate = trio.model.state(), trio.real.state()
                     mlocks, rlocks = trio.model.locks(), trio.real.locks()
                     label = "%s@%s#%d%s" % (kind, "/".join(path.split("/")[:2]), nth, ":persistent" if persistent else ":once")
